@@ -1845,8 +1845,60 @@ def run_sig(case, out):
 
 
 # ------------------------------------------------------------------ harness interface
+PARTIALS = [('fn:substring', 3, ['2', '1']), ('fn:concat', 3, ["'b'", "'c'"]), ('fn:subsequence', 3, ['1', '1']),
+            ('fn:replace', 3, ["'a'", "'b'"]), ('fn:translate', 3, ["'a'", "'b'"]), ('fn:index-of', 2, ['1']),
+            ('fn:string-join', 2, ["','"]), ('fn:starts-with', 2, ["'a'"]), ('fn:round', 2, ['1']),
+            ('fn:insert-before', 3, ['1', "'x'"]), ('fn:contains', 2, ["'a'"]), ('fn:tokenize', 2, ["','"])]
+
+
+def run_fn_history(case, out):
+    """the judgement on a function item does not depend on what happened to the item before: a named reference is
+    judged against its own signature, partially applied through a variable (dynamic call with `?`), and the result
+    judged against the signature that is left - with and without the first judgement"""
+    ver, fn, arity, rest, first = case['ver'], case['fn'], case['arity'], case['rest'], case['first']
+    text = lookup_signature(ver, fn, arity)
+    if text is None:
+        out.nontrivial = False
+        return
+    try:
+        params, ret, variadic = M.parse_signature(text, NS)
+    except M.ParseError:
+        out.nontrivial = False
+        return
+    full = M.render(['seq', ['function', params, ret], ''], PREFIXES)
+    left = M.render(['seq', ['function', params[:1], ret], ''], PREFIXES)
+    part = '$f(?, %s)' % ', '.join(rest)
+    probes = [('partial-against-remaining-signature', '%s instance of %s' % (part, left), True),
+              ('partial-against-full-signature', '%s instance of %s' % (part, full), False),
+              ('item-against-own-signature', '$f instance of %s' % full, True),
+              ('partial-arity', 'function-arity(%s)' % part, 1)]
+    pre = {'own-signature': '$f instance of %s' % full, 'any-function': '$f instance of function(*)',
+           'treat': '$f treat as %s' % full, 'none': None}[first]
+    for name, probe, expected in probes:
+        body = probe if pre is None else '(count((%s)), %s)[2]' % (pre, probe)
+        o = E.call(evalx, 'let $f := %s#%d return %s' % (fn, arity, body), ver)
+        out.dim('fn_history_probe', name)
+        out.dim('fn_history_first', first)
+        got = o[1] if o[0] == 'ok' else list(o[:2])
+        if isinstance(got, list) and len(got) == 1:
+            got = got[0]
+        if got != expected:
+            # the same probe without anything before it: a wrong answer there is not a history effect
+            o0 = E.call(evalx, 'let $f := %s#%d return %s' % (fn, arity, probe), ver)
+            g0 = o0[1] if o0[0] == 'ok' else list(o0[:2])
+            if isinstance(g0, list) and len(g0) == 1:
+                g0 = g0[0]
+            key = 'C18/function-item-history/%s/%s' % (name, 'depends-on-earlier-judgement' if g0 == expected else 'wrong-on-fresh-item')
+            out.fail(key, {'function': '%s#%d' % (fn, arity), 'version': ver, 'before': pre, 'probe': probe,
+                           'expected': expected, 'got': got, 'fresh': g0})
+    out.obs = '%s#%d first=%s' % (fn, arity, first)
+
+
 def check_case(kind, case):
     out = Outcome()
+    if kind == 'fn-history':
+        run_fn_history(case, out)
+        return out
     if kind == 'judge':
         run_judge(case, out)
     elif kind == 'subtype':
@@ -1902,6 +1954,11 @@ def run(h):
     if h.shard == 0:
         for c in array_function_cases():
             h.case('judge', c)
+    if h.shard == 0:
+        for fn, arity, rest in PARTIALS:
+            for ver in ('3.0', '3.1'):
+                for first in ('none', 'own-signature', 'any-function', 'treat'):
+                    h.case('fn-history', {'ver': ver, 'fn': fn, 'arity': arity, 'rest': rest, 'first': first})
     for _ in range(h.n(9000)):
         h.case('judge', g_judge(r))
     for c in fixed_subtype_cases():
